@@ -171,6 +171,17 @@ def classify_consumers(F, ev, body, call_block, local, cons, roles, depth):
             if cid in ("std::ops::FromResidual::from_residual",):
                 hows.append("?")
                 continue
+            if cid == "std::clone::Clone::clone":
+                # a copy of the Option/Result is absent exactly when the original is: follow it like the original
+                d = c["term"]["dest"]
+                if d["proj"]:
+                    return False, "stored", "copied result stored into a projected place"
+                sub = consumers(body, d["l"])
+                ok, how, msg = classify_consumers(F, ev, body, call_block, d["l"], sub, roles, depth + 1)
+                if not ok:
+                    return ok, how, msg
+                hows.append("clone→" + how)
+                continue
             if cid.endswith("::collect") or cid.endswith("FromIterator::from_iter"):
                 hows.append("collected")
                 continue
